@@ -100,6 +100,7 @@ const (
 	OpFPToUBV // P1 = width, RTZ
 	OpFPToSBV // P1 = width, RTZ
 	OpFPFromBits
+	OpFPRound // fp.roundToIntegral, P1 = mode: 0 RNE, 1 RNA, 2 RTP (ceil), 3 RTN (floor), 4 RTZ (trunc)
 	// Int back end
 	OpIAdd
 	OpISub
@@ -693,6 +694,28 @@ func FPFromBits(a *Term) *Term {
 	return mk(OpFPFromBits, FP64, a)
 }
 
+// FPRound rounds to an integral value: mode 0 RNE (math.RoundToEven), 1 RNA
+// (math.Round), 2 RTP (math.Ceil), 3 RTN (math.Floor), 4 RTZ (math.Trunc).
+func FPRound(a *Term, mode int) *Term {
+	if a.IsConst() {
+		switch mode {
+		case 0:
+			return ConstFP(math.RoundToEven(a.F))
+		case 1:
+			return ConstFP(math.Round(a.F))
+		case 2:
+			return ConstFP(math.Ceil(a.F))
+		case 3:
+			return ConstFP(math.Floor(a.F))
+		case 4:
+			return ConstFP(math.Trunc(a.F))
+		}
+	}
+	t := mk(OpFPRound, FP64, a)
+	t.P1 = mode
+	return t
+}
+
 // ---------------------------------------------------------------- Int sort
 
 func ibin(op Op, a, b *Term) *Term {
@@ -795,6 +818,8 @@ func head(t *Term) string {
 		return fmt.Sprintf("(_ fp.to_ubv %d) RTZ", t.P1)
 	case OpFPToSBV:
 		return fmt.Sprintf("(_ fp.to_sbv %d) RTZ", t.P1)
+	case OpFPRound:
+		return "fp.roundToIntegral " + [...]string{"RNE", "RNA", "RTP", "RTN", "RTZ"}[t.P1]
 	}
 	if s, ok := opNames[t.Op]; ok {
 		return s
@@ -993,6 +1018,8 @@ func Rebuild(t *Term, a []*Term) *Term {
 		return FPToBV(a[0], t.P1, true)
 	case OpFPFromBits:
 		return FPFromBits(a[0])
+	case OpFPRound:
+		return FPRound(a[0], t.P1)
 	}
 	r := *t
 	r.Args = a
